@@ -447,7 +447,7 @@ pub fn def() -> PropertyDef {
             Family { name: "determinism", max_len: 200, quick: 60_000, thorough: 1_500_000, run: run_det },
             Family { name: "cross-process", max_len: 200, quick: 1_600, thorough: 30_000, run: run_cross },
             Family { name: "laziness", max_len: 32, quick: 20_000, thorough: 300_000, run: run_lazy },
-            Family { name: "determinism-scale", max_len: 96, quick: 3_000, thorough: 40_000, run: run_det_scale },
+            Family { name: "determinism-scale", max_len: 96, quick: 3_000, thorough: 30_000, run: run_det_scale },
             Family { name: "diseq-chains", max_len: 64, quick: 30_000, thorough: 600_000, run: run_diseq_chains },
             Family { name: "fd-multi-binding", max_len: 64, quick: 60_000, thorough: 400_000, run: run_fd_multi },
         ],
